@@ -116,10 +116,12 @@ func (p *ClonePool) ExtractPendingRelease() []Value {
 func (p *ClonePool) ExtractAllMarkedFinalize() []Value {
 	p.mx.Lock()
 
-	// Disregard the pendingFinalize list as all values are still present in the
-	// weakrefs map.
+	// Start from the values whose go finalizer has already run but whose Lua
+	// finalizer has not been extracted yet (they are already flagged as
+	// finalized in the register, so the loop below does not see them), then
+	// add all values in the register not yet finalized.
+	marked := p.pendingFinalize
 	p.pendingFinalize = nil
-	var marked sortablePendingClones
 	for k, c := range p.cloneRegister {
 		if !c.hasFlag(wrFinalized) {
 			c.setFlag(wrFinalized)
